@@ -281,7 +281,7 @@ class Gen:
         # final: counts, full drain of every topic, empty polls, counts
         self.emit('counts')
         for t in self.topics:
-            self.emit('drain', t=t, api=r.choice(['rn', 'rn', 'br']), max=r.choice([1 << 20, 1 << 30, 4096]))
+            self.emit('drain', t=t, api=r.choice(p.get('drain_api', ['rn', 'rn', 'br'])), max=r.choice(p.get('drain_max', [1 << 20, 1 << 30, 4096])))
             self.emit('rn', t=t, cp=True)
             self.emit('br', t=t, max=1 << 20, cp=True)
             self.emit('count', t=t)
